@@ -161,9 +161,52 @@ def mkproc_scope(tier):
     return cases
 
 
+def _u(name, width, caps, rl=False, wl=False, mem=()):
+    return {"name": name, "width": width, "capabilities": list(caps), "readLock": rl, "writeLock": wl,
+            "memoryAccess": list(mem)}
+
+
+FIXED_PROCS = [
+    # one in-out core holding both locks (self-dependent instructions are granted read+write together)
+    {"units": [_u("core", 2, ["ALU"], True, True)], "dataPath": []},
+    # read lock at the input, write lock at the output
+    {"units": [_u("in", 2, ["ALU"], True, False), _u("out", 1, ["ALU"], False, True)], "dataPath": [["in", "out"]]},
+    # both locks at the output of a three-stage chain with a memory stage
+    {"units": [_u("f", 2, ["ALU"]), _u("m", 1, ["ALU"], mem=["ALU"]), _u("w", 2, ["ALU"], True, True)],
+     "dataPath": [["f", "m"], ["m", "w"]]},
+    # two routes of unequal length (ALU short, MEM long) joining in a write-locking output
+    {"units": [_u("in", 2, ["ALU", "MEM"], True, False), _u("x1", 1, ["MEM"]), _u("x2", 1, ["MEM"], mem=["MEM"]),
+               _u("out", 2, ["ALU", "MEM"], False, True)],
+     "dataPath": [["in", "out"], ["in", "x1"], ["x1", "x2"], ["x2", "out"]]},
+    # two input ports (name order B < a), one needing memory
+    {"units": [_u("B", 1, ["ALU"], True, False, mem=["ALU"]), _u("a", 1, ["ALU"], True, False),
+               _u("out", 1, ["ALU"], False, True)], "dataPath": [["B", "out"], ["a", "out"]]},
+    # fork to two outputs, locks at the input
+    {"units": [_u("in", 2, ["ALU", "MEM"], True, True), _u("o1", 1, ["ALU"]), _u("o2", 1, ["MEM"], mem=["MEM"])],
+     "dataPath": [["in", "o1"], ["in", "o2"]]},
+]
+
+
+def sim_scope(tier):
+    """ALL programs up to 2 (quick) / 3 (thorough) instructions over 2 registers (0..2 sources each) on six
+    fixed small processors"""
+    n = 2 if tier == "quick" else 3
+    regs = ["R0", "R1"]
+    cases = []
+    for d in FIXED_PROCS:
+        caps = sorted({c for u in d["units"] for c in u["capabilities"]})
+        instrs = [[list(srcs), dst, c] for srcs in ([], ["R0"], ["R1"], ["R0", "R1"]) for dst in regs for c in caps]
+        for k in range(0, n + 1):
+            for prog in itertools.product(instrs, repeat=k):
+                cases.append({"kind": "loaded", "desc": d, "perm_seed": 0, "prog": [list(i) for i in prog]})
+    return cases
+
+
 PROPS = {
-    "C01": {"streams": [sim_stream("full", ["C01"], {"selfdep": 0.4})]},
-    "C02": {"streams": [sim_stream("full", ["C02"], {"selfdep": 0.4, "plen": 10})]},
+    "C01": {"streams": [S("sim", "full", ["C01"], 0, 0, explicit=sim_scope, exhaustive=True),
+                        sim_stream("full", ["C01"], {"selfdep": 0.4})]},
+    "C02": {"streams": [S("sim", "full", ["C02"], 0, 0, explicit=sim_scope, exhaustive=True),
+                        sim_stream("full", ["C02"], {"selfdep": 0.4, "plen": 10})]},
     "C03": {"streams": [sim_stream("full", ["C03"], {"nmax": 8})]},
     "C04": {"streams": [sim_stream("occ", ["C04"], {"wmax": 4})]},
     "C05": {"streams": [sim_stream("occ", ["C05"], {"mem_p": 0.6})]},
